@@ -44,6 +44,8 @@ type C11Req struct {
 	Batch  bool    `json:"batch,omitempty"`
 	Method string  `json:"method,omitempty"`
 	Cred   C11Cred `json:"cred"`
+	// PathVar spells the (pull) request path non-canonically; the endpoint addressed is the cleaned path
+	PathVar string `json:"path_var,omitempty"` // "" | dslash | trailing | dot | dotdot | dotdot-other
 }
 
 type C11Case struct {
@@ -265,6 +267,9 @@ func genC11Case() *rapid.Generator[C11Case] {
 				r.Batch = rapid.Bool().Draw(t, "batch")
 			}
 			r.Method = rapid.SampledFrom([]string{"", "", "", "GET", "PUT"}).Draw(t, "method")
+			if r.API == "pull" {
+				r.PathVar = rapid.SampledFrom([]string{"", "", "", "dslash", "trailing", "dot", "dotdot", "dotdot-other"}).Draw(t, "path_var")
+			}
 			r.Cred.Kind = rapid.SampledFrom([]string{"absent", "bearer", "bearer", "bearer", "lower", "upper", "basic", "noscheme", "spaces", "tab", "trailing", "leading"}).Draw(t, "ckind")
 			r.Cred.Src = rapid.SampledFrom([]string{"own", "own", "global", "other", "admin", "none"}).Draw(t, "csrc")
 			r.Cred.Idx = rapid.IntRange(0, 2).Draw(t, "cidx")
@@ -393,7 +398,24 @@ func runC11(c C11Case, _ bool) *fOutcome {
 			if method == "" {
 				method = "POST"
 			}
-			fr := FReq{Method: method, Path: pullPrefix + ep + "/" + r.Op, Host: "pull.example.com", Remote: "203.0.113.7:1", Body: []byte(body)}
+			reqPath := pullPrefix + ep + "/" + r.Op
+			switch r.PathVar {
+			case "dslash":
+				reqPath = pullPrefix + ep + "//" + r.Op
+			case "trailing":
+				reqPath = pullPrefix + ep + "/" + r.Op + "/"
+			case "dot":
+				reqPath = pullPrefix + ep + "/./" + r.Op
+			case "dotdot":
+				reqPath = pullPrefix + ep + "/x/../" + r.Op
+			case "dotdot-other":
+				other := (r.Route + 1) % (len(c.Routes) + 1)
+				reqPath = fmt.Sprintf("%s/pull/r%d/../r%d/%s", pullPrefix, other, r.Route, r.Op)
+			}
+			if r.PathVar != "" {
+				out.Labels["non-canonical-pull-path"] = true
+			}
+			fr := FReq{Method: method, Path: reqPath, Host: "pull.example.com", Remote: "203.0.113.7:1", Body: []byte(body)}
 			fr.Headers = append(fr.Headers, [2]string{"Content-Type", "application/json"})
 			for _, v := range values {
 				fr.Headers = append(fr.Headers, [2]string{"Authorization", v})
